@@ -17,6 +17,7 @@ namespace JS.Py
 inductive Cond2 where
   | c1 (c : Cond)                 -- a condition of `JS.Py.IR` over the JSON-valued locals
   | truthyVar (x : String)        -- `if x:` for a local of any kind (an empty list of errors is falsy)
+  | resolverLacksResolve          -- `resolve = getattr(validator.resolver, "resolve", None)` … `if resolve is None:`
   | notC (c : Cond2)
 deriving Repr, Inhabited
 
@@ -52,6 +53,11 @@ inductive St2 where
   | errPathAppendLeft (x : String) (e : Ex)                                 -- `x.path.appendleft(e)`
   | errSchemaPathExtend (x : String) (es : List Ex)                         -- `x.schema_path.extend([es…])`
   | yieldVar (x : String)                                                   -- `yield x`
+  | resolveRef (x y : String) (e : Ex)                                      -- `x, y = validator.resolver.resolve(e)`
+  | pushScope (e : Ex)                                                      -- `validator.resolver.push_scope(e)`
+  | tryFinallyPop (body : List St2)
+      -- `try: body  finally: validator.resolver.pop_scope()` (body: only `descend`/`yield` statements)
+  | unsupportedSt (why : String)                                            -- a statement outside the subset (never reached in the model's world)
 deriving Repr, Inhabited
 
 inductive Fn2 where
